@@ -324,7 +324,7 @@ func (w *world) materialise(m mMsg, b *binding, variant int) (data []byte, prefi
 		}
 		container = c
 		if m.Body.Kind == "truncated" {
-			container = container[:len(container)*(1+variant%3)/4]
+			container = container[:len(container)*(variant%4)/4] // incl. the empty container
 		}
 		if m.Body.Kind == "garbled" {
 			container = append([]byte{}, container...)
